@@ -42,6 +42,7 @@ fn run_with(sut: &dyn Sut, parse: &dyn Fn(&str) -> Option<Op>, a: &Args, cases: 
         max_states: a.num("max_states", 400_000),
         max_transitions: a.num("max_transitions", 6_000_000),
         max_findings: a.num("max_findings", 20),
+        missized: a.num("missized", 0) != 0,
     };
     let mode = a.get("mode").unwrap_or("bfs");
     start_watchdog(a.num("op_timeout", 10) as u64, a.get("stats").map(|s| s.to_string()), sut.name());
@@ -213,6 +214,10 @@ fn main() {
                     if a.num("long", 0) == 1 {
                         v.extend(strs::long_strings(a.num("size", 4) + 3));
                     }
+                    if a.num("wrap", 0) == 1 {
+                        let w = a.num("w", 1);
+                        v.extend(strs::wrap_strings(a.num("size", 4).saturating_sub(w), if w == 1 { 256 } else { 65536 }));
+                    }
                     v
                 },
                 byte_inits: a.num("bytes", 1) == 1,
@@ -224,6 +229,9 @@ fn main() {
             let mut strs = strs::strings(a.num("chars", 2), &alphabet(&a));
             if a.num("long", 0) == 1 {
                 strs.extend(strs::long_strings(n + 3));
+            }
+            if a.num("ctl", 0) == 1 {
+                strs.extend(strs::control_strings(n + 1));
             }
             let sut = strs::PodStrSut { n, strs, byte_inits: a.num("bytes", 1) == 1 };
             run(&sut, &|l| sut.parse(l), &a)
